@@ -81,7 +81,7 @@ func genMsg(rng *rand.Rand) (string, func() netty.Message) {
 		case 3:
 			return 2047 + rng.Intn(3)
 		case 4:
-			if rng.Intn(6) == 0 {
+			if rng.Intn(2) == 0 { // at and just above the largest pool class
 				return 65536 + rng.Intn(3)
 			}
 			return rng.Intn(5000)
